@@ -1717,18 +1717,28 @@ impl<T: TypeConfig> RaftRoleState for LeaderState<T> {
                 )
                 .is_some();
             if quorum_confirmed {
-                // Anchor deadline to send time (not ACK time) to eliminate the RTT/2 window.
-                // Falls back to now_ms() only in tests that bypass execute_and_process_raft_rpc.
-                let send_ts = if self.last_heartbeat_send_ts > 0 {
-                    self.last_heartbeat_send_ts
-                } else {
-                    now_ms()
-                };
-                self.update_lease_timestamp(
-                    send_ts,
-                    ctx.node_config().raft.read_consistency.lease_duration_ms,
-                );
-                self.drain_pending_lease_reads(ctx);
+                // Lease reads are answered from the local state machine. A freshly elected
+                // leader may still be applying entries its predecessors committed and
+                // acknowledged to clients: until everything up to its own no-op is applied,
+                // the lease must not become valid and queued lease reads must stay queued,
+                // otherwise they miss those acknowledged writes.
+                let sm_caught_up = self
+                    .noop_log_id
+                    .is_none_or(|noop| ctx.state_machine().last_applied().index >= noop);
+                if sm_caught_up {
+                    // Anchor deadline to send time (not ACK time) to eliminate the RTT/2 window.
+                    // Falls back to now_ms() only in tests that bypass execute_and_process_raft_rpc.
+                    let send_ts = if self.last_heartbeat_send_ts > 0 {
+                        self.last_heartbeat_send_ts
+                    } else {
+                        now_ms()
+                    };
+                    self.update_lease_timestamp(
+                        send_ts,
+                        ctx.node_config().raft.read_consistency.lease_duration_ms,
+                    );
+                    self.drain_pending_lease_reads(ctx);
+                }
                 // Path A drain (Bug #381 fix): serve linearizable reads that have been
                 // waiting for quorum confirmation. Pure-read batches never advance
                 // commit_index, so handle_apply_completed (Path B) would never fire for
